@@ -242,7 +242,91 @@ func c03Cases(seed int64, tier string) []core.Case {
 		g.GPT = append(g.GPT, GPTPartSpec{Index: 129 + i*40, Start: 3000, End: 3999, Type: "0FC63DAF-8483-4772-8E79-3D69D8477DE4", Name: "beyond"})
 		cs = append(cs, core.MkCase(fmt.Sprintf("table-gpt-over-%d", i), "table-gpt", r.Int63(), c03Table{Spec: g}))
 	}
+	// writing partition contents: partition 1 is followed directly by partition 2 and then by the backup table;
+	// geometries where the partition size is / is not a multiple of the physical sector, readers of every shape
+	geoms := [][2]int{{512, 512}, {512, 4096}, {4096, 4096}, {4096, 512}}
+	np := 0
+	for _, kind := range []string{"gpt", "mbr"} {
+		for _, ge := range geoms {
+			if kind == "mbr" && ge[1] < ge[0] {
+				continue
+			}
+			secs := []uint64{1, 7, 9, 17, 100, 257, 1001}
+			if tier != "thorough" {
+				secs = []uint64{uint64(gen.Pick(r, []int{1, 3, 7})), uint64(gen.Pick(r, []int{9, 17, 100})), uint64(gen.Pick(r, []int{257, 1001, 1003}))}
+			}
+			for si, sc := range secs {
+				startS := uint64(r.Range(40, 3000))
+				if si == 1 {
+					startS = uint64(1<<32)/uint64(ge[0]) + uint64(r.Range(0, 9000))
+				}
+				size := int64(sc) * int64(ge[0])
+				for ri, rl := range []int64{size, size - 1, size + 1, size + int64(ge[1]), size / 2} {
+					if rl < 0 || (tier != "thorough" && ri >= 2 && (si+ri+np)%3 != 0) {
+						continue
+					}
+					g := c13Geom{Kind: kind, LSS: ge[0], PSS: ge[1], DevSize: 1 << 36, Start: startS, Sectors: sc, Start2: startS + sc, Sect2: 8, Op: "write", RLen: rl, Class: "contents"}
+					g.Chunk = []string{"full", "odd", "eofwith", "half"}[(np+ri)%4]
+					cs = append(cs, core.MkCase(fmt.Sprintf("contents-%d", np), "part-contents", r.Int63(), g))
+					np++
+				}
+			}
+		}
+	}
 	return cs
+}
+
+// c03RunContents: Disk.WritePartitionContents into partition 1; partition 2 starts at the next sector.
+func c03RunContents(c core.Case, env *core.Env) core.Result {
+	var g c13Geom
+	c.Decode(&g)
+	var res core.Result
+	st := monstore.NewMemFilled(g.DevSize, uint64(c.Seed)|1)
+	d, err := c13Disk(st, g)
+	if err != nil {
+		res.Inconclusive = "could not set up the partitioned disk: " + err.Error()
+		return res
+	}
+	pStart, pSize := int64(g.Start)*int64(g.LSS), int64(g.Sectors)*int64(g.LSS)
+	fail := func(key, detail string) { res.Fail(key, detail, g) }
+	before := st.Clone()
+	st.ResetCounters()
+	st.SetAllowed(monstore.Range{Off: pStart, End: pStart + pSize})
+	st.SetLog(true)
+	rd := &prfStream{seed: uint64(c.Seed) * 77, total: g.RLen, mode: g.Chunk, zeros: c.Seed%2 == 0}
+	var werr error
+	if pi := core.Guard(func() { _, werr = d.WritePartitionContents(1, rd) }); pi != nil {
+		fail("C03/partition-contents/panic/"+pi.Top+":"+pi.Class, "WritePartitionContents panicked: "+pi.Msg)
+		return res
+	}
+	comp := "partition-contents-" + g.Kind
+	res.Mark("partition contents written with the next partition directly behind")
+	res.Mark(fmt.Sprintf("contents %s lss=%d pss=%d", g.Kind, g.LSS, g.PSS))
+	if pSize%int64(g.PSS) != 0 {
+		res.Mark("partition size not a multiple of the physical sector")
+	}
+	if werr != nil {
+		res.Count("contents.refused", 1)
+	} else {
+		res.Count("contents.accepted", 1)
+	}
+	c03Report(&res, st, comp, pStart, pSize, fmt.Sprintf("WritePartitionContents (reader %d bytes, pieces %q, result %v)", g.RLen, g.Chunk, werr), fail)
+	res.Count("store.write_events", st.WriteCalls.Load())
+	if len(res.Findings) == 0 {
+		// the touched pages of the device before and after, with the partition itself blanked in both, must agree
+		after := st.Clone()
+		blank := make([]byte, pSize)
+		before.Poke(blank, pStart)
+		after.Poke(blank, pStart)
+		ha, _ := before.TouchedHash()
+		hb, nb := after.TouchedHash()
+		res.Count("guard.pages_compared", int64(nb))
+		if ha != hb {
+			fail(fmt.Sprintf("C03/%s/guard-bytes-changed/unattributed", comp), "bytes outside the partition differ after WritePartitionContents although no write event was flagged")
+		}
+	}
+	res.Sig("contents", g.Kind, g.LSS, g.PSS, g.Sectors, g.RLen-pSize, g.Chunk)
+	return res
 }
 
 func c03RunImage(c core.Case, env *core.Env) core.Result {
@@ -360,10 +444,10 @@ func init() {
 	core.Register(&core.Check{
 		ID:    "C03",
 		Level: "exploration",
-		Rule: "every WriteAt reaching the instrumented store is range-checked online (a write outside the allowed ranges counts only if it changes a byte: identical rewrites are recorded as benign) and the guard bytes (PRF fill outside the range) are re-verified afterwards page by page. Workloads: FAT12/16/32 and ext4 volumes at start 0/512/4096/1 MiB/4 GiB+ with sizes that are not multiples of the cluster/block size under random histories, fill-to-no-space with many files, release and refill; iso9660 and squashfs Create+Finalize with trees smaller and larger than the range at start 0/1 MiB/4 GiB+; Disk.CreateFilesystem of every type in partition 1 of MBR/GPT disks whose partition 2 follows directly, for every partition size from 1 to 300 sectors and a geometric ladder up to 70000 (refused or accepted: nothing outside partition 1 may change); GPT/MBR table writes (allowed: MBR bytes 446-511, GPT header and array sectors of both copies) over PRF-filled devices incl. rewrite over another table and tables with more entries than the format holds (5-9 MBR partitions, GPT indices beyond 128); non-trivial = a workload that issued at least one write; distinct = distinct (component, geometry, workload)",
-		Assumptions: []string{"the store's unwritten bytes outside the range are a non-zero PRF of the offset, so any write of different bytes there is visible", "partition-content streaming is range-checked in C13"},
+		Rule: "every WriteAt reaching the instrumented store is range-checked online (a write outside the allowed ranges counts only if it changes a byte: identical rewrites are recorded as benign) and the guard bytes (PRF fill outside the range) are re-verified afterwards page by page. Workloads: FAT12/16/32 and ext4 volumes at start 0/512/4096/1 MiB/4 GiB+ with sizes that are not multiples of the cluster/block size under random histories, fill-to-no-space with many files, release and refill; iso9660 and squashfs Create+Finalize with trees smaller and larger than the range at start 0/1 MiB/4 GiB+; Disk.CreateFilesystem of every type in partition 1 of MBR/GPT disks whose partition 2 follows directly, for every partition size from 1 to 300 sectors and a geometric ladder up to 70000 (refused or accepted: nothing outside partition 1 may change); Disk.WritePartitionContents into partition 1 with partition 2 on the next sector, GPT/MBR x logical/physical 512/4096 incl. partition sizes that are not a multiple of the physical sector, below and above 4 GiB, readers supplying size, size-1, size+1, size+sector, size/2 bytes in full, odd-sized, data-with-EOF and halved pieces; GPT/MBR table writes (allowed: MBR bytes 446-511, GPT header and array sectors of both copies) over PRF-filled devices incl. rewrite over another table and tables with more entries than the format holds (5-9 MBR partitions, GPT indices beyond 128); non-trivial = a workload that issued at least one write; distinct = distinct (component, geometry, workload)",
+		Assumptions: []string{"the store's unwritten bytes outside the range are a non-zero PRF of the offset, so any write of different bytes there is visible", "C13 decides where and how much partition-content streaming stores; here only its staying inside the partition is decided"},
 		MinSigs:   map[string]int{"quick": 60, "thorough": 500},
-		NeedMarks: []string{"fat12", "fat16", "fat32", "ENOSPC reached", "iso9660", "squashfs", "table gpt", "table mbr", "volume beyond 4 GiB", "Disk.CreateFilesystem in a partition followed directly by another"},
+		NeedMarks: []string{"fat12", "fat16", "fat32", "ENOSPC reached", "iso9660", "squashfs", "table gpt", "table mbr", "volume beyond 4 GiB", "Disk.CreateFilesystem in a partition followed directly by another", "partition contents written with the next partition directly behind", "partition size not a multiple of the physical sector"},
 		CPUSec:    900,
 		Cases:     c03Cases,
 		Run: func(c core.Case, env *core.Env) core.Result {
@@ -376,6 +460,8 @@ func init() {
 				return c03RunTable(c, env)
 			case c.Kind == "disk-create":
 				return c03RunDisk(c, env)
+			case c.Kind == "part-contents":
+				return c03RunContents(c, env)
 			}
 			return runFatCase("C03", c, env)
 		},
